@@ -43,6 +43,7 @@ import (
 	"syscall"
 	"testing"
 	"time"
+	"unsafe"
 
 	pb "github.com/refraction-networking/conjure/proto"
 	"google.golang.org/protobuf/proto"
@@ -175,6 +176,49 @@ func (d *c13pDrv) readerGone() string {
 	}
 }
 
+// deliver writes one file content into the pipe, waits until the reload has read all of it (FIONREAD
+// on the pipe is 0: only then does the registrar certainly hold a descriptor that /proc/self/fd
+// shows), closes the write end (end of file for the reload) and waits until the registrar has closed
+// its end. Without the first wait a new attach could hit the old reader before it has seen the end
+// of its file, and two contents would be read as one.
+func (d *c13pDrv) deliver(w *os.File, content []byte) string {
+	if len(content) == 0 {
+		content = []byte("\n")
+	}
+	if _, err := w.Write(content); err != nil {
+		w.Close()
+		return "write pipe: " + err.Error()
+	}
+	rc, err := w.SyscallConn()
+	if err != nil {
+		w.Close()
+		return err.Error()
+	}
+	deadline := time.Now().Add(c13hReqTimeout)
+	for {
+		var unread int32 = -1
+		var ierr syscall.Errno
+		if err := rc.Control(func(fd uintptr) {
+			_, _, ierr = syscall.Syscall(syscall.SYS_IOCTL, fd, 0x541B /* FIONREAD */, uintptr(unsafe.Pointer(&unread)))
+		}); err != nil || ierr != 0 {
+			w.Close()
+			return fmt.Sprintf("FIONREAD on the pipe: %v %v", err, ierr)
+		}
+		if unread == 0 {
+			break
+		}
+		if time.Now().After(deadline) {
+			w.Close()
+			return "the reload in progress does not read the subnet pipe"
+		}
+		time.Sleep(100 * time.Microsecond)
+	}
+	if err := w.Close(); err != nil {
+		return "close pipe: " + err.Error()
+	}
+	return d.readerGone()
+}
+
 func (d *c13pDrv) hup(bump bool) string {
 	d.newest = d.s.seq.Add(1)
 	g := d.genDisk
@@ -239,14 +283,7 @@ func (d *c13pDrv) feedEmpty() (*c13hViol, string) {
 	d.s.mayEmpty.Store(true)
 	d.classes["fed-empty"] = true
 	content := c13hEmptyFiles[int(d.s.emptyN.Add(1))%len(c13hEmptyFiles)]
-	if _, err := w.Write([]byte(content)); err != nil {
-		w.Close()
-		return nil, "write pipe: " + err.Error()
-	}
-	if err := w.Close(); err != nil {
-		return nil, "close pipe: " + err.Error()
-	}
-	return nil, d.readerGone()
+	return nil, d.deliver(w, []byte(content))
 }
 
 func (d *c13pDrv) feed(bad bool) (*c13hViol, string) {
@@ -272,12 +309,8 @@ func (d *c13pDrv) feed(bad bool) (*c13hViol, string) {
 			d.hi.Store(v)
 		}
 	}
-	if _, err := w.Write(content); err != nil {
-		w.Close()
-		return nil, "write pipe: " + err.Error()
-	}
-	if err := w.Close(); err != nil {
-		return nil, "close pipe: " + err.Error()
+	if h := d.deliver(w, content); h != "" {
+		return nil, h
 	}
 	if bad {
 		// auxiliary only: give the handler a bounded moment to report
@@ -311,7 +344,7 @@ func (d *c13pDrv) feed(bad bool) (*c13hViol, string) {
 			time.Sleep(500 * time.Microsecond)
 		}
 	}
-	return nil, d.readerGone()
+	return nil, ""
 }
 
 func (d *c13pDrv) act(kind string) (*c13hViol, string) {
